@@ -8,7 +8,8 @@
    The Rust union-bound algorithm itself is tied to `infer` by the correspondence check. *)
 From RS Require Import Lib.Tac Lib.Outcome Ty.Ty Core.Prog Generated.Consts
   Infer.Constraints Infer.Unify Infer.Infer Infer.Principal Infer.Gen Infer.Theorems Infer.Order
-  Infer.Display Infer.DisplayBound.
+  Infer.Display Infer.DisplayBound
+  Infer.Run Infer.Run2 Infer.UnionFind Infer.Slab Infer.RunSlab Infer.Rational Infer.ErrClass Infer.ErrDisplay Infer.SlabProofs.
 Import ListNotations.
 
 (* ------------------------------------------------------------------ inference *)
@@ -183,5 +184,174 @@ Proof.
   cbn zeta. split; [|split].
   - intros [|[|[|[|[|v]]]]] H; cbn in *; lia.
   - intros x y [E|[]]. injection E as <- <-. cbn. lia.
+  - eexists. vm_compute. reflexivity.
+Qed.
+
+(* ================================================================== phase 2 *)
+
+(* ------------------------------------------------------------------ the Rust union-bound heap (union_bound.rs as written) *)
+
+(* UbElement::root_element (path halving): under the rank invariant it returns the representative
+   within the fuel 1 + largest rank, keeps the invariant, the ranks, the roots' data, and the
+   represented partition: every element has the same representative before and after *)
+Theorem C04_uf_root_element : forall (u : uf) (x : nat), uf_wf u -> (x < length u)%nat ->
+  exists u', root_element (uf_fuel u) u x = Ok (u', rep u x) /\ uf_wf u' /\ length u' = length u /\
+    max_rank u' = max_rank u /\
+    (forall e, ub_rank (ufget u' e) = ub_rank (ufget u e)) /\
+    (forall e, (e < length u)%nat -> rep u' e = rep u e) /\
+    (forall e, is_uroot u e -> ufget u' e = ufget u e) /\
+    (forall e, is_uroot u' e -> is_uroot u e).
+Proof. exact root_element_ok. Qed.
+Print Assumptions C04_uf_root_element.
+
+(* the linking step of UbElement::unify (rank increment on equal ranks, then y.data := EqualTo(x)):
+   keeps the rank invariant and merges exactly the classes of the two roots *)
+Theorem C04_uf_link : forall (u : uf) (x y : nat), uf_wf u -> (x < length u)%nat -> (y < length u)%nat ->
+  is_uroot u x -> is_uroot u y -> x <> y -> (ub_rank (ufget u y) <= ub_rank (ufget u x))%N ->
+  uf_wf (ub_link u x y) /\ length (ub_link u x y) = length u /\
+  forall e, (e < length u)%nat -> rep (ub_link u x y) e = if Nat.eqb (rep u e) y then x else rep u e.
+Proof. exact ub_link_spec. Qed.
+Print Assumptions C04_uf_link.
+
+(* the full refinement (the slab model of Infer/Slab.v computes, on every construction, what the
+   reference computes) is compared case by case (RunSlab.run_both) and stated here *)
+Definition C04_slab_refines_reference_statement : Prop :=
+  forall (fmode : nat) (program : bool) (order : list nat) (jets : list (N * N * list N * list N)) (p : prog),
+    strip99 (run_rinfer fmode program order jets p) = run_infer program order jets p.
+
+(* ------------------------------------------------------------------ what is independent of the order, error class included *)
+
+(* solve succeeds exactly when store and equations have a model in possibly infinite trees; it
+   reports a clash exactly when they have none *)
+Theorem C04_solve_ok_iff : forall (s : store) (eqs : list (nat * nat)), wf s -> eqs_in (length s) eqs ->
+  ((exists s', solve s eqs = Ok s') <-> consistent s eqs).
+Proof. exact solve_ok_iff. Qed.
+Print Assumptions C04_solve_ok_iff.
+
+Theorem C04_solve_err_iff : forall (s : store) (eqs : list (nat * nat)), wf s -> eqs_in (length s) eqs ->
+  (solve s eqs = Err tt <-> ~ consistent s eqs).
+Proof. exact solve_err_iff. Qed.
+Print Assumptions C04_solve_err_iff.
+
+(* any reordering (any list with the same members) of the equations gives the same outcome class:
+   clash / solved store failing the occurs check / solved store passing it, and then the same
+   resolved type of every variable *)
+Theorem C04_solve_perm_class : forall (s : store) (eqs eqs' : list (nat * nat)),
+  wf s -> eqs_in (length s) eqs -> same_members eqs eqs' ->
+  match solve s eqs, solve s eqs' with
+  | Ok s1, Ok s2 =>
+      occurs_ok s1 = occurs_ok s2 /\
+      (occurs_ok s1 = true -> forall v, (v < length s)%nat -> res s1 v = res s2 v)
+  | Err _, Err _ => True
+  | _, _ => False
+  end.
+Proof. exact solve_perm_class. Qed.
+Print Assumptions C04_solve_perm_class.
+
+(* what does depend on the order: the failing equation is the last one of the shortest inconsistent prefix *)
+Theorem C04_solve_first_failure : forall (s : store) (eqs : list (nat * nat)), wf s -> eqs_in (length s) eqs ->
+  (solve s eqs = Err tt <->
+   exists k x y, nth_error eqs k = Some (x, y) /\ consistent s (firstn k eqs) /\ ~ consistent s (firstn (S k) eqs)).
+Proof. exact solve_first_failure. Qed.
+Print Assumptions C04_solve_first_failure.
+
+(* the error class of infer in terms of the constraint SET *)
+Theorem C04_infer_class_char : forall jt root p g rb re, gen jt p = Some g -> root_tmpl g root = Some (rb, re) ->
+  let c0 := consistent (g_store g) (g_eqs g) in
+  let c1 := consistent (g_store g ++ rb) (g_eqs g ++ re) in
+  let fin := finite_model (g_store g ++ rb) (g_eqs g ++ re) in
+  (infer jt root p = Err (EBind 0) <-> ~ c0) /\
+  (infer jt root p = Err (EBind 1) <-> c0 /\ ~ c1) /\
+  (infer jt root p = Err EOccurs <-> c1 /\ ~ fin) /\
+  ((exists tau, infer jt root p = Ok tau) <-> fin).
+Proof. exact infer_class_char. Qed.
+Print Assumptions C04_infer_class_char.
+
+(* construction orders: the class is the same for every valid order - full statement, and its proof by
+   computation for all 1565 programs of <= 3 nodes over 5 leaves + 7 combinators x all orders x program flag *)
+Definition C04_class_order_statement : Prop := class_order_statement.
+
+Theorem C04_class_order_partial :
+  forallb check_table (all_tables 1 ++ all_tables 2 ++ all_tables 3) = true.
+Proof. exact class_order_small. Qed.
+Print Assumptions C04_class_order_partial.
+
+(* Type::to_incomplete reports <self-reference> exactly when the reference occurs check fails on that variable *)
+Theorem C04_to_incomplete_cycle : forall (s : store) (v : nat), show_inc s v = [8%N] <-> res s v = None.
+Proof. exact show_inc_cycle. Qed.
+Print Assumptions C04_to_incomplete_cycle.
+
+Example C04_ex_consistent_cyclic :
+  (* iden; disconnect iden iden: the constraints are consistent in infinite trees (solve succeeds) but have no finite model *)
+  exists g s', gen [] [NIden; NDisconnect 0 (Some 0%nat)] = Some g /\ solve (g_store g) (g_eqs g) = Ok s' /\ occurs_ok s' = false.
+Proof. eexists. eexists. split; [reflexivity|]. split; vm_compute; reflexivity. Qed.
+
+Example C04_ex_uf :
+  let u := [mk_ub (UEq 1) 0; mk_ub (UEq 2) 1; mk_ub (URoot 7) 2] in
+  uf_wf u /\ root_element (uf_fuel u) u 0 = Ok ([mk_ub (UEq 2) 0; mk_ub (UEq 2) 1; mk_ub (URoot 7) 2], 2%nat).
+Proof.
+  cbn zeta. split; [|vm_compute; reflexivity].
+  intros [|[|[|e]]] H; cbn in *; try lia; auto; split; lia.
+Qed.
+
+(* ------------------------------------------------------------------ Display of types::Error on the slab model *)
+
+(* a Bind error whose existing bound is a complete type t prints Final's whole Display of t *)
+Theorem C04_error_display_embeds : forall (c : ctx) st ex nb t,
+  (ex < length (c_slab c))%nat -> slab_get c ex = RComplete t ->
+  forall n x, err_display (RBind st ex nb) c = Ok (n, x) ->
+  x = [TFinal t] /\ (length (display_final t) <= length (expand n ++ expand x))%nat.
+Proof. exact err_display_embeds. Qed.
+Print Assumptions C04_error_display_embeds.
+
+(* F-C04 on the model of the error path: no bound on the text of a type error *)
+Theorem C04_error_display_unbounded_refuted : forall B : nat, exists c e n x,
+  err_display e c = Ok (n, x) /\ (B < length (expand n ++ expand x))%nat.
+Proof. exact err_display_unbounded_refuted. Qed.
+Print Assumptions C04_error_display_unbounded_refuted.
+
+(* apart from embedded complete types the message is bounded: each of the two bounds takes at most
+   3 (MAX_DISPLAY_LENGTH + 1) + 1 tokens, one token per embedded complete type *)
+Theorem C04_error_display_bounded : forall (c : ctx) e n x, err_display e c = Ok (n, x) ->
+  (length n <= 3 * (disp_length + 1) + 1)%nat /\ (length x <= 3 * (disp_length + 1) + 1)%nat.
+Proof. exact err_display_bounded. Qed.
+Print Assumptions C04_error_display_bounded.
+
+(* ------------------------------------------------------------------ the slab model against valuations (first part of the refinement) *)
+
+(* bound.root(): returns the BoundRef of the representative; partition, representatives' data and models unchanged *)
+Theorem C04_slab_root : forall (c : ctx) (e : nat), cwf c -> (e < length (c_uf c))%nat ->
+  exists u', c_root c e = Ok (put_uf c u', bref_of (c_uf c) (rep (c_uf c) e)) /\ same_part (c_uf c) u' /\
+             (forall al, rsat al (put_uf c u') <-> rsat al c).
+Proof.
+  intros c e CW He. destruct (c_root_spec c e CW He) as (u' & E & P).
+  exists u'. split; [exact E|]. split; [exact P|]. intros al. apply rsat_same_part. exact P.
+Qed.
+Print Assumptions C04_slab_root.
+
+(* bind(existing, Complete t) - the Complete-vs-Incomplete arms of context.rs as written, recursing on the
+   roots of both children - is sound: every model of the state it returns is a model of the state before
+   in which the class of `existing` has type t; no class is merged *)
+Theorem C04_slab_bind_complete_sound : forall fuel (c : ctx) b t c' eb,
+  cwf c -> holds_ref c eb b ->
+  bind fuel c b (RComplete t) = Ok c' ->
+  cwf c' /\ keeps_part c c' /\ length (c_slab c') = length (c_slab c) /\
+  (forall al, rsat al c' -> rsat al c /\ al eb = t).
+Proof. exact bind_complete_sound. Qed.
+Print Assumptions C04_slab_bind_complete_sound.
+
+(* A x A against the complete asymmetric 2 x 2^8: the hypotheses hold and the model rejects *)
+Example C04_ex_slab_bind_asym :
+  let c := mk_ctx [RFree; RProd 0 0] [mk_ub (URoot 0) 0; mk_ub (URoot 1) 0] in
+  cwf c /\ holds_ref c 1 1 /\ exists e, bind 10 c 1 (RComplete (Prod Bit (word_ty 3))) = Err e.
+Proof.
+  cbn zeta. split; [|split].
+  - unfold cwf. cbn [c_uf c_slab]. split; [|split; [|split]].
+    + intros [|[|e]] H; cbn in *; try lia; exact I.
+    + intros [|[|b]] x y [H|H]; cbn in H; try discriminate; try (injection H as <- <-; cbn; lia);
+        destruct b; discriminate.
+    + intros [|[|e]] [|[|e']] H H' R R' E; cbn in *; try lia; try reflexivity; discriminate.
+    + intros [|[|e]] H R; cbn in *; lia.
+  - unfold holds_ref. cbn. repeat split; lia.
   - eexists. vm_compute. reflexivity.
 Qed.
